@@ -133,6 +133,24 @@ def in_centred_lattice(vecs, setting, tol=1e-9):
     return ok
 
 
+def is_primitive_basis(P, setting, tol=1e-9):
+    """Do the rows of P (conventional-cell coordinates) form a right-handed primitive basis of the centred lattice?
+    They do iff each row is a lattice translation and the cell they span holds exactly one lattice point,
+    i.e. det P = 1 / (lattice points per conventional cell)."""
+    P = np.asarray(P, float)
+    if P.shape != (3, 3) or not np.isfinite(P).all():
+        return False
+    return bool(in_centred_lattice(P, setting, tol).all()
+                and abs(np.linalg.det(P) - 1.0 / lattice_points_per_cell(setting)) <= tol)
+
+
+def sorted_rows(a):
+    """Rows of an (N,k) array in lexicographic order (to compare two row SETS)."""
+    a = np.asarray(a)
+    a = a.reshape(-1, a.shape[-1])
+    return a[np.lexsort(a.T[::-1])]
+
+
 def centring_translations(setting):
     return np.array([[float(c) for c in t] for t in CENTRING[setting]], float).reshape(-1, 3)
 
